@@ -743,8 +743,13 @@ struct Digit {
     }
     /////////////////////////////////////////
     template <typename Float_T, typename Stream_T, typename Number_T>
-    static void realToString(Stream_T &stream, const Number_T number, const RealFormatInfo format) {
+    static void realToString(Stream_T &stream, const Number_T number, RealFormatInfo format) {
         constexpr SizeT32 number_size = sizeof(Number_T);
+
+        if ((format.Precision == 0U) && (format.Type != RealFormatType::Fixed) &&
+            (format.Type != RealFormatType::SemiFixed)) {
+            format.Precision = 1U; // Like %g: a precision of zero is taken as one significant digit.
+        }
 
         using Info_T = DigitUtils::RealNumberInfo<Float_T, number_size>;
         // 4.9406564584124654e-324 needs about 1216 bits to store all its digits.
@@ -782,21 +787,23 @@ struct Digit {
                 const bool extra_digits = ((digits > format.Precision) & !fixed);
                 const bool big_offset   = (positive_exp >= first_bit);
                 const bool no_fraction  = (is_positive_exp & (big_offset | extra_digits));
-                bool       round_up     = false;
+                // Whole digits left out when the number is too large for the precision.
+                const SizeT32 drop = ((no_fraction & extra_digits) ? (digits - (format.Precision + 1U)) : 0);
+                bool          round_up = false; // Something other than zero was cut off below the last digit.
                 /////////////////////////////////////
                 if (no_fraction) {
-                    const SizeT32 drop    = ((!extra_digits) ? 0 : (digits - (format.Precision + 1U)));
                     const SizeT32 m_shift = (Info_T::MantissaSize + drop);
 
                     if (m_shift < positive_exp) {
                         b_int <<= (positive_exp - m_shift);
                     } else {
+                        // Set bits are lost only when the shift passes the lowest one.
+                        round_up = ((m_shift - positive_exp) > first_shift);
                         b_int >>= (m_shift - positive_exp);
                     }
 
                     if (drop != 0) {
-                        round_up = true;
-                        bigIntDropDigits(b_int, drop);
+                        round_up |= bigIntDropDigits(b_int, drop);
                     }
                 } else {
                     SizeT32 shift   = 0;
@@ -829,8 +836,10 @@ struct Digit {
                     SizeT32 times = fraction_length;
 
                     if (times >= DigitConst::MaxPowerOfFive) {
+                        // Every cut below loses a little; the words kept have to hold the digits asked for, the
+                        // one to round on, and some spare bits so the loss never reaches them.
                         const SizeT32 max_index = (format.Precision < Info_T::MaxCut)
-                                                      ? ((format.Precision / DigitConst::MaxPowerOfTen) + 2U)
+                                                      ? (((format.Precision + 3U) / DigitConst::MaxPowerOfTen) + 2U)
                                                       : b_int.MaxIndex();
 
                         do {
@@ -857,27 +866,24 @@ struct Digit {
 
                 switch (format.Type) {
                     case RealFormatType::SemiFixed: {
-                        formatStringNumberFixed<false>(stream, start_at, format.Precision, digits, fraction_length,
-                                                       round_up);
+                        formatStringNumberFixed<false>(stream, start_at, format.Precision, fraction_length, round_up);
                         break;
                     }
 
                     case RealFormatType::Fixed: {
-                        formatStringNumberFixed<true>(stream, start_at, format.Precision, digits, fraction_length,
-                                                      round_up);
+                        formatStringNumberFixed<true>(stream, start_at, format.Precision, fraction_length, round_up);
                         break;
                     }
 
                     default: {
-                        formatStringNumberDefault(stream, start_at, format.Precision, digits, fraction_length,
-                                                  is_positive_exp, round_up);
+                        formatStringNumberDefault(stream, start_at, format.Precision, fraction_length, drop,
+                                                  round_up);
                     }
                 }
-
             } else {
                 stream += DigitUtils::DigitChar::Zero;
 
-                if (format.Type == RealFormatType::Fixed) {
+                if ((format.Type == RealFormatType::Fixed) && (format.Precision != 0U)) {
                     stream += DigitUtils::DigitChar::Dot;
                     insertZerosLarge(stream, format.Precision);
                 }
@@ -950,244 +956,218 @@ struct Digit {
         }
     }
 
+    // Returns true if any of the dropped digits was not zero.
     template <typename BigInt_T>
-    inline static void bigIntDropDigits(BigInt_T &b_int, SizeT32 drop) noexcept {
+    inline static bool bigIntDropDigits(BigInt_T &b_int, SizeT32 drop) noexcept {
         using DigitConst = DigitUtils::DigitConst<BigInt_T::SizeOfType()>;
+        bool lost        = false;
 
         while (drop >= DigitConst::MaxPowerOfFive) {
-            b_int /= DigitConst::GetPowerOfFive(DigitConst::MaxPowerOfFive);
+            lost |= (b_int.Divide(DigitConst::GetPowerOfFive(DigitConst::MaxPowerOfFive)) != 0);
             drop -= DigitConst::MaxPowerOfFive;
         }
 
         if (drop != 0) {
-            b_int /= DigitConst::GetPowerOfFive(drop);
+            lost |= (b_int.Divide(DigitConst::GetPowerOfFive(drop)) != 0);
         }
+
+        return lost;
     }
 
+    // From 'started_at' the stream holds the digits of a whole number, the least significant first; its value is
+    // that number times ten to the power of (dropped - fraction_length). 'sticky' tells that something other than
+    // zero was already cut off below the lowest digit.
     template <typename Stream_T>
     static void formatStringNumberDefault(Stream_T &stream, const SizeT started_at, const SizeT32 precision,
-                                          const SizeT32 calculated_digits, SizeT32 fraction_length,
-                                          const bool is_positive_exp, const bool round_up) {
-        using Char_T                = typename Stream_T::CharType;
-        Char_T     *storage         = stream.Storage();
-        const SizeT number_length   = (stream.Length() - started_at);
-        SizeT       index           = started_at;
-        SizeT       power           = 0;
-        bool        power_increased = false;
-        /////////////////////////////////////////////////////
-        if (number_length > precision) {
-            --index;
-            index += SizeT(number_length - precision);
-
-            roundStringNumber(stream, index, power_increased, round_up);
-
-            if (is_positive_exp) {
-                const SizeT diff =
-                    SizeT(((number_length - fraction_length) +
-                           ((calculated_digits <= precision) ? 0 : (calculated_digits - (precision + SizeT{1})))) -
-                          SizeT(!power_increased));
-
-                if (diff >= precision) {
-                    Char_T       *number = (storage + index);
-                    const Char_T *last   = stream.Last();
-
-                    while ((number < last) && (*number == DigitUtils::DigitChar::Zero)) {
-                        ++number;
-                        ++index;
-                    }
-
-                    power           = diff;
-                    fraction_length = 0;
-                }
-            }
-        }
-
-        if (fraction_length != 0) {
-            Char_T       *number        = (storage + index);
-            const Char_T *last          = stream.Last();
-            const SizeT   dot_index     = SizeT(started_at + fraction_length);
-            const bool    fraction_only = (number_length <= fraction_length);
-
-            while ((number < last) && (*number == DigitUtils::DigitChar::Zero)) {
-                ++number;
-                ++index;
-            }
-
-            if (fraction_only) {
-                const SizeT diff = SizeT((fraction_length > number_length) ? (fraction_length - number_length) : 0);
-
-                if (!power_increased) {
-                    if (diff < SizeT{4}) {
-                        insertZeros(stream, diff);
-                        stream += DigitUtils::DigitChar::Dot;
-                        stream += DigitUtils::DigitChar::Zero;
-                    } else {
-                        power = diff;
-                        ++power;
-                    }
-                } else if ((diff != 0) && (diff < SizeT{5})) {
-                    insertZeros(stream, (diff - SizeT{1}));
-                    stream += DigitUtils::DigitChar::Dot;
-                    stream += DigitUtils::DigitChar::Zero;
-                } else {
-                    power = diff;
-                }
-            } else if (index < dot_index) {
-                stream.InsertAt(DigitUtils::DigitChar::Dot, dot_index);
-            } else {
-                SizeT zeros = 0;
-
-                if (power_increased) {
-                    zeros = SizeT(number_length - fraction_length);
-                } else {
-                    const SizeT rem    = (index - started_at);
-                    const SizeT needed = SizeT(number_length - calculated_digits);
-
-                    if (rem > needed) {
-                        zeros = (rem - needed);
-                    }
-                }
-
-                while (zeros != 0) {
-                    --index;
-                    storage[index] = DigitUtils::DigitChar::Zero;
-                    --zeros;
-                }
-            }
-        }
-
-        stream.Reverse(started_at);
-        stream.StepBack(index - started_at);
-
-        if (power != 0) {
-            stream.InsertAt(DigitUtils::DigitChar::Dot, (started_at + SizeT{1}));
-            insertPowerOfTen(stream, power, is_positive_exp);
-        }
-    }
-
-    template <bool Fixed_T, typename Stream_T>
-    static void formatStringNumberFixed(Stream_T &stream, const SizeT started_at, const SizeT32 precision,
-                                        const SizeT32 calculated_digits, const SizeT32 fraction_length,
-                                        const bool round_up) {
-        using Char_T              = typename Stream_T::CharType;
-        Char_T     *storage       = stream.Storage();
-        const SizeT number_length = (stream.Length() - started_at);
-        SizeT       index         = started_at;
-        const SizeT dot_index     = SizeT(started_at + fraction_length);
-        SizeT32     diff          = ((fraction_length > number_length) ? SizeT32(fraction_length - number_length) : 0);
-        bool        power_increased = false;
-        const bool  fraction_only   = (number_length <= fraction_length);
-        /////////////////////////////////////////////////////
-        if (fraction_length != 0) {
-            if (diff <= precision) {
-                if (fraction_length > precision) {
-                    index += SizeT(fraction_length - (precision + SizeT{1}));
-                    roundStringNumber(stream, index, power_increased, (round_up | (diff != 0)));
-
-                    Char_T       *number = (storage + index);
-                    const Char_T *last   = stream.Last();
-
-                    while ((number < last) && (*number == DigitUtils::DigitChar::Zero)) {
-                        ++number;
-                        ++index;
-                    }
-                }
-
-                if (fraction_only) {
-                    if ((index < stream.Length()) || power_increased) {
-                        if (diff != 0) {
-                            if (power_increased) {
-                                index -= SizeT(index == stream.Length());
-                                storage[index] = DigitUtils::DigitChar::One;
-                            }
-
-                            diff -= SizeT32(power_increased);
-                            insertZerosLarge(stream, diff);
-                            stream += DigitUtils::DigitChar::Dot;
-                            stream += DigitUtils::DigitChar::Zero;
-                        } else if (!power_increased) {
-                            stream += DigitUtils::DigitChar::Dot;
-                            stream += DigitUtils::DigitChar::Zero;
-                        }
-                    } else {
-                        --index;
-                        storage[index] = DigitUtils::DigitChar::Zero;
-                    }
-                } else if (index < dot_index) {
-                    stream.InsertAt(DigitUtils::DigitChar::Dot, dot_index);
-                } else {
-                    SizeT zeros = 0;
-
-                    if (power_increased) {
-                        zeros = SizeT(number_length - fraction_length);
-                    } else {
-                        const SizeT rem    = (index - started_at);
-                        const SizeT needed = SizeT(number_length - calculated_digits);
-
-                        if (rem > needed) {
-                            zeros = (rem - needed);
-                        }
-                    }
-
-                    while (zeros != 0) {
-                        --index;
-                        storage[index] = DigitUtils::DigitChar::Zero;
-                        --zeros;
-                    }
-                }
-            } else {
-                index += (number_length - SizeT{1});
-                storage[index] = DigitUtils::DigitChar::Zero;
-            }
-        }
-
-        stream.Reverse(started_at);
-        stream.StepBack(index - started_at);
-
-        if QENTEM_CONST_EXPRESSION (Fixed_T) {
-            if ((dot_index == index) || ((stream.Length() - started_at) == SizeT{1}) ||
-                (!fraction_only && power_increased)) {
-                stream += DigitUtils::DigitChar::Dot;
-                insertZerosLarge(stream, precision);
-            } else if (fraction_only) {
-                insertZerosLarge(
-                    stream, SizeT32(precision -
-                                    SizeT32(stream.Length() - (started_at + SizeT{2})))); // 2 is the length of '0.'.
-            } else {
-                insertZerosLarge(stream, SizeT32(precision - (dot_index - index)));
-            }
-        }
-    }
-
-    template <typename Stream_T>
-    static void roundStringNumber(Stream_T &stream, SizeT &index, bool &power_increased, bool round_up) noexcept {
+                                          const SizeT32 fraction_length, const SizeT32 dropped, const bool sticky) {
         using Char_T = typename Stream_T::CharType;
 
-        const Char_T *last   = stream.Last();
-        Char_T       *number = (stream.Storage() + index);
+        const SizeT length = (stream.Length() - started_at);
+        SizeT       top    = (length + dropped); // The place of the leading digit, counted from the lowest one.
+        SizeT       kept   = length;             // Significant digits to print.
+        SizeT       cut    = 0;                  // Digits to throw away from the lower end.
 
-        ++index;
+        if (length > precision) {
+            cut  = SizeT(length - precision);
+            kept = precision;
 
-        const bool round =
-            (((*number > DigitUtils::DigitChar::Five) ||
-              ((*number == DigitUtils::DigitChar::Five) &&
-               (round_up || ((SizeT32(stream.First()[index] - DigitUtils::DigitChar::Zero) & 1U) == 1U)))));
-
-        if (round) {
-            ++number;
-
-            while ((number < last) && (*number == DigitUtils::DigitChar::Nine)) {
-                ++index;
-                ++number;
-            }
-
-            if ((number > last) || (*number == DigitUtils::DigitChar::Nine)) {
-                power_increased         = true;
-                stream.Storage()[index] = DigitUtils::DigitChar::One;
-            } else {
-                ++(*number);
+            if (roundStringNumber(stream, started_at, cut, sticky)) {
+                // '1' and nothing but zeros; one more of them to go.
+                ++cut;
+                ++top;
             }
         }
+
+        const Char_T *digits = (stream.Storage() + started_at);
+
+        if (top > fraction_length) {
+            const SizeT whole_digits = SizeT(top - fraction_length);
+
+            if (whole_digits <= precision) {
+                // Zeros go only from the fraction.
+                while ((cut < fraction_length) && (digits[cut] == DigitUtils::DigitChar::Zero)) {
+                    ++cut;
+                }
+
+                if (cut < fraction_length) {
+                    stream.InsertAt(DigitUtils::DigitChar::Dot, SizeT(started_at + fraction_length));
+                }
+
+                stream.Reverse(started_at);
+                stream.StepBack(cut);
+                return;
+            }
+
+            while ((kept > SizeT{1}) && (digits[cut] == DigitUtils::DigitChar::Zero)) {
+                ++cut;
+                --kept;
+            }
+
+            stream.Reverse(started_at);
+            stream.StepBack(cut);
+
+            if (kept > SizeT{1}) {
+                stream.InsertAt(DigitUtils::DigitChar::Dot, SizeT(started_at + SizeT{1}));
+            }
+
+            insertPowerOfTen(stream, SizeT(whole_digits - SizeT{1}), true);
+            return;
+        }
+
+        while ((kept > SizeT{1}) && (digits[cut] == DigitUtils::DigitChar::Zero)) {
+            ++cut;
+            --kept;
+        }
+
+        const SizeT zeros = SizeT(fraction_length - top); // Between the point and the leading digit.
+
+        if (zeros < SizeT{4}) {
+            insertZeros(stream, zeros);
+            stream += DigitUtils::DigitChar::Dot;
+            stream += DigitUtils::DigitChar::Zero;
+            stream.Reverse(started_at);
+            stream.StepBack(cut);
+            return;
+        }
+
+        stream.Reverse(started_at);
+        stream.StepBack(cut);
+
+        if (kept > SizeT{1}) {
+            stream.InsertAt(DigitUtils::DigitChar::Dot, SizeT(started_at + SizeT{1}));
+        }
+
+        insertPowerOfTen(stream, SizeT(zeros + SizeT{1}), false);
+    }
+
+    // The same layout as above, with nothing dropped: the value is the number divided by ten to the power of
+    // 'fraction_length'.
+    template <bool Fixed_T, typename Stream_T>
+    static void formatStringNumberFixed(Stream_T &stream, const SizeT started_at, const SizeT32 precision,
+                                        const SizeT32 fraction_length, const bool sticky) {
+        using Char_T = typename Stream_T::CharType;
+
+        const SizeT length   = (stream.Length() - started_at);
+        SizeT       kept     = length;          // Digits that stay.
+        SizeT       cut      = 0;               // Digits to throw away from the lower end.
+        SizeT32     fraction = fraction_length; // Digits after the point.
+
+        if (fraction_length > precision) {
+            fraction = precision;
+            cut      = SizeT(fraction_length - precision);
+
+            if (cut > length) {
+                // Too small to round up to anything.
+                cut  = length;
+                kept = 0;
+            } else {
+                kept = SizeT(length - cut);
+                kept += SizeT(roundStringNumber(stream, started_at, cut, sticky));
+            }
+        }
+
+        if QENTEM_CONST_EXPRESSION (!Fixed_T) {
+            const Char_T *digits = (stream.Storage() + started_at);
+
+            if (kept == 0) {
+                fraction = 0;
+            }
+
+            while ((fraction != 0) && (digits[cut] == DigitUtils::DigitChar::Zero)) {
+                ++cut;
+                --kept;
+                --fraction;
+            }
+        }
+
+        if (kept <= fraction) {
+            // Nothing before the point.
+            insertZerosLarge(stream, SizeT32(fraction - kept));
+
+            if (fraction != 0) {
+                stream += DigitUtils::DigitChar::Dot;
+            }
+
+            stream += DigitUtils::DigitChar::Zero;
+        } else if (fraction != 0) {
+            stream.InsertAt(DigitUtils::DigitChar::Dot, SizeT(started_at + fraction_length));
+        }
+
+        stream.Reverse(started_at);
+        stream.StepBack(cut);
+
+        if QENTEM_CONST_EXPRESSION (Fixed_T) {
+            if (fraction < precision) {
+                if (fraction == 0) {
+                    stream += DigitUtils::DigitChar::Dot;
+                }
+
+                insertZerosLarge(stream, SizeT32(precision - fraction));
+            }
+        }
+    }
+
+    // Rounds the number in the stream (least significant digit first, from 'started_at') to the nearest, ties to
+    // even, at the digit of index 'cut'; the 'cut' digits below it (1 <= cut <= length) lose their meaning, and
+    // 'sticky' stands for something other than zero below all of them. Returns true when the carry went past the
+    // leading digit; a new leading '1' is added then.
+    template <typename Stream_T>
+    static bool roundStringNumber(Stream_T &stream, const SizeT started_at, const SizeT cut, bool sticky) {
+        using Char_T = typename Stream_T::CharType;
+
+        Char_T      *digits = (stream.Storage() + started_at);
+        const SizeT  length = (stream.Length() - started_at);
+        const Char_T half   = digits[cut - SizeT{1}];
+        bool         round  = (half > DigitUtils::DigitChar::Five);
+
+        if (half == DigitUtils::DigitChar::Five) {
+            SizeT index = 0;
+
+            while (!sticky && (index < (cut - SizeT{1}))) {
+                sticky = (digits[index] != DigitUtils::DigitChar::Zero);
+                ++index;
+            }
+
+            round = (sticky || ((cut < length) && ((SizeT32(digits[cut] - DigitUtils::DigitChar::Zero) & 1U) == 1U)));
+        }
+
+        if (round) {
+            SizeT index = cut;
+
+            while ((index < length) && (digits[index] == DigitUtils::DigitChar::Nine)) {
+                digits[index] = DigitUtils::DigitChar::Zero;
+                ++index;
+            }
+
+            if (index == length) {
+                stream += DigitUtils::DigitChar::One;
+                return true;
+            }
+
+            ++(digits[index]);
+        }
+
+        return false;
     }
 };
 
